@@ -51,7 +51,6 @@ type Engine struct {
 	forbidEvents                                                []string
 	guards                                                      []guard
 	crossEvery                                                  int
-	splitSlices                                                 int
 	queryTimeoutMs                                              int
 	params                                                      map[string]int
 	collisionFree                                               map[string]bool // UF names with injectivity axiom
